@@ -46,6 +46,21 @@ def main():
     t0 = time.time()
     mod = importlib.import_module("vcheck.props." + a.prop)
     chk = mod.Check(a.tier, seed)
+    # functions of the property's files whose source differs from the one the hand-written model was validated against: not an alarm
+    # (the ties below decide), but the correspondence and the search then run at the thorough tier's size even in the quick tier
+    drift = []
+    try:
+        from vcheck import astx as _astx
+        with open(os.path.join(os.path.dirname(os.path.abspath(__file__)), "properties.jsonl")) as f:
+            files = [json.loads(l) for l in f if l.strip()]
+        files = [p for p in files if p["id"] == a.prop][0]["anchors"]["files"]
+        drift = _astx.drift(files)
+    except Exception:
+        drift = []
+    if drift and a.tier == "quick" and not a.replay and os.environ.get("VERIF_NO_ESCALATION") != "1":
+        chk.quick = False
+        os.environ["VERIF_ESCALATED"] = "1"
+        print("source drift in %d function(s) of %s (%s%s): correspondence runs at thorough size" % (len(drift), a.prop, ", ".join(drift[:3]), " ..." if len(drift) > 3 else ""))
 
     if a.replay:
         with open(a.replay) as f:
@@ -154,6 +169,7 @@ def main():
         input_distribution=stats.hist, monitors=stats.monitors,
         broken_ties=[f.to_json() for f in failures[:10]],
         lean_build_s=aud.get("build_s"),
+        model_source_drift=drift,
     )
     if a.tier == "thorough" and rc == 0:
         # independent re-check of the compiled theorem modules of this property (default: its Props file)
